@@ -60,12 +60,6 @@ for d,site in (('to_polyhedron','nodal_data=self.nodal_data'),('to_facets','noda
         f"femio/fem_data.py {d}: {site}",
         f"{d}() hands the parent's variable table object (and the coordinate array) to the child: remove_useless_nodes() (or a writer that expands time series, or an in-place rotation / translation) on one of the two objects rewrites the other's data, whose queries then raise or answer for the wrong mesh")
 # ---- round 3: further history dependences of the unchanged tree (de7d55f)
-opn({'kind':'stale-lru','effect':'assign_nodes','memo_inventory':memo_pin},
-    'femio/fem_attribute.py data setter (fem_data.nodes.data = v): the attribute cannot reach the FEMData caches (only elements got an owner hook)',
-    "q(); fem_data.nodes.data = v (new array, or the held array edited and assigned back); q() returns the value memoised for the old coordinates (extract_surface positions, normals, jacobians, frame tensors, ...)")
-opn({'kind':'stale-slot','effect':'assign_nodes','slot_inventory':slot_pin},
-    "fem_data.nodes.data = v leaves elemental_data['area'|'volume'|'metric'] in place",
-    "calculate_element_areas|volumes|metrics() after assigning node coordinates return the stored values of the old coordinates")
 opn({'kind':'stale-lru','effect':'remove_useless_nodes','effect_raised':'KeyError','memo_inventory':memo_pin},
     "femio/fem_data.py remove_useless_nodes: self.nodes is replaced, then value.loc[self.nodes.ids] raises KeyError for a nodal variable that lacks some node ids - before _clear_query_caches()",
     "remove_useless_nodes() that raises midway leaves the mesh half updated (nodes replaced, later nodal variables not, caches not cleared): memoised queries keep answering for the old node set (proposed_fixes/C19_remove_useless_nodes_all_or_nothing.diff)")
@@ -85,7 +79,11 @@ for var, why in ((['elemental_data:volume'], "calculate_element_metrics (and eve
 def fixed_by(m):
     k, e = m.get('kind'), m.get('effect')
     if m.get('effect_raised'):
-        return None
+        return 'a4c9c14' if e == 'remove_useless_nodes' else None
+    if k == 'slot-partial':
+        return 'f91ec7a'
+    if k == 'query-overwrites-user-variable' and m.get('variables') in (['elemental_data:volume'], ['elemental_data:area']):
+        return 'a8d6190'
     if k in ('stale-lru', 'stale-derive') and e in ('remove_useless_nodes', 'rotation', 'translation'):
         return '1693b7f'
     if k == 'modifier-differs' and e in ('rotation', 'translation'):
